@@ -90,6 +90,24 @@ func chainNamed(name string) *pki.Chain {
 	case "self-issued-intermediate":
 		// the intermediate carries the root's name (own key): self-issued, not self-signed
 		c = pki.MustBuild(pki.LeafSpec(pki.K("p256", 0), "c07-leaf-si"), pki.CASpec(pki.K("p256", 1), "c07-same-name"), pki.CASpec(pki.K("p256", 2), "c07-same-name"))
+	case "leaf-issuer-name-reordered":
+		// the leaf is signed by the root's key but names as issuer the root's
+		// attributes in another order: another Name that prints the same
+		o, cn := pki.ATV{OID: pki.OIDO, Value: "c07-org"}, pki.ATV{OID: pki.OIDCN, Value: "c07-root-2attr"}
+		leaf := pki.LeafSpec(pki.K("p256", 0), "c07-leaf-ro")
+		leaf.IssuerDER = pki.NameDER([]pki.ATV{cn}, []pki.ATV{o})
+		root := pki.CASpec(pki.K("p256", 1), "c07-root-2attr")
+		root.SubjectDER = pki.NameDER([]pki.ATV{o}, []pki.ATV{cn})
+		root.IssuerDER = root.SubjectDER
+		c = pki.MustBuild(leaf, root)
+	case "root-two-attribute-name":
+		o, cn := pki.ATV{OID: pki.OIDO, Value: "c07-org"}, pki.ATV{OID: pki.OIDCN, Value: "c07-root-2attr"}
+		root := pki.CASpec(pki.K("p256", 1), "c07-root-2attr")
+		root.SubjectDER = pki.NameDER([]pki.ATV{o}, []pki.ATV{cn})
+		root.IssuerDER = root.SubjectDER
+		leaf := pki.LeafSpec(pki.K("p256", 0), "c07-leaf-2a")
+		leaf.IssuerDER = root.SubjectDER
+		c = pki.MustBuild(leaf, root)
 	case "leaf-named-like-its-issuer":
 		c = pki.MustBuild(pki.LeafSpec(pki.K("p256", 0), "c07-one-name"), pki.CASpec(pki.K("p256", 1), "c07-one-name"))
 	}
@@ -313,6 +331,8 @@ func buildCatalogue() []deviation {
 	add("chain-leaf-ku-not-critical", false, both, func(m *Model) { m.Chain = chainNamed("leaf-ku-noncritical") })
 	add("chain-self-issued-intermediate", true, both, func(m *Model) { m.Chain = chainNamed("self-issued-intermediate") })
 	add("chain-leaf-named-like-its-issuer", true, both, func(m *Model) { m.Chain = chainNamed("leaf-named-like-its-issuer") })
+	add("chain-leaf-issuer-name-reordered", false, both, func(m *Model) { m.Chain = chainNamed("leaf-issuer-name-reordered") })
+	add("chain-root-two-attribute-name", true, both, func(m *Model) { m.Chain = chainNamed("root-two-attribute-name") })
 	add("alg-not-leaf-alg", false, both, func(m *Model) {
 		// sign with another key kind's algorithm and key, carry the base chain
 		m.Set("alg", `"ES384"`, envcodec.Int(-35))
